@@ -203,6 +203,8 @@ class Harness:
         env = dict(os.environ)
         if memtrace:
             env["VERIF_S3MEM_TRACE"] = memtrace     # backend/s3mem/verif_trace.go: state events of every s3mem instance
+            os.makedirs(memtrace + ".up", exist_ok=True)
+            env["VERIF_UPLOADER_TRACE"] = memtrace + ".up"   # verif_trace.go: state events of every uploader
         self.p = subprocess.Popen(cmd, stdin=subprocess.PIPE, stderr=subprocess.PIPE, env=env, bufsize=1 << 20)
         self.err = []
         self.t = threading.Thread(target=self._drain, daemon=True)
@@ -351,7 +353,7 @@ def tour_stage(rep, work, name, module, constants, systems, opts="", keys="plain
     write_cfg(work.path(cfgfile), constants, view=view, action_constraint=emit, invariants=invariants,
               properties=properties)
     mtdir = None
-    if memtrace and "mem" in systems:
+    if memtrace:
         mtdir = tempfile.mkdtemp(prefix="memtrace.", dir=work.dir)
     h = Harness(work, rep.prop, systems, opts=opts, seed=rep.seed, thorough=thorough, small=small, keys=keys,
                 reopen=reopen, workers=hworkers, tag=re.sub(r"\W", "_", name), addr=addr, memtrace=mtdir)
@@ -372,17 +374,31 @@ def tour_stage(rep, work, name, module, constants, systems, opts="", keys="plain
         name, res.distinct, res.generated, res.wall, summ["tours"], ",".join(systems), summ["steps"],
         len(summ.get("mismatches") or []), summ.get("known")))
     if mtdir:
-        memtrace_validate(rep, work, name + " (s3mem state trace)", mtdir)
+        if "mem" in systems:
+            memtrace_validate(rep, work, name + " (s3mem state trace)", mtdir)
+        memtrace_validate(rep, work, name + " (uploader state trace)", mtdir + ".up", module="TraceUp")
     return res, summ
 
 
 # ---------------------------------------------------------------------------
 # state traces recorded inside backend/s3mem (hooks, build tag verif) validated by TraceMem.tla
 
-def memtrace_validate(rep, work, name, tracedir, piece=60000):
-    """Groups the events by backend instance, orders each group by its sequence number (taken under the
-    backend's lock), and lets TLC check event by event that the logged state is an outcome S3!Step admits."""
+STATE_TRACES = {
+    # module -> (reset event, description of a rejected event)
+    "TraceMem": ({"op": "reset", "b": "", "k": [], "vids": [], "exists": False, "ver": "None", "stack": []},
+                 lambda e: "bucket exists=%s versioning=%s stack=%s" % (e["exists"], e["ver"], json.dumps(e["stack"])[:400])),
+    "TraceUp": ({"op": "reset", "b": "", "k": [], "uid": "", "part": 0, "list": [], "ups": [], "all": []},
+                lambda e: "upload=%s part=%s list=%s uploads on the key=%s all=%s" % (
+                    e["uid"], e["part"], json.dumps(e["list"])[:120], json.dumps(e["ups"])[:400], e["all"])),
+}
+
+
+def memtrace_validate(rep, work, name, tracedir, piece=60000, module="TraceMem"):
+    """Groups the events by instance (a backend, an uploader), orders each group by its sequence number (taken under
+    the instance's lock), and lets TLC check event by event that the logged state is an outcome S3!Step admits."""
     import collections, hashlib
+    reset, describe = STATE_TRACES[module]
+    what = {"TraceMem": "s3mem", "TraceUp": "uploader"}[module]
     groups = collections.defaultdict(list)
     for fn in sorted(os.listdir(tracedir)):
         if not fn.endswith(".ndjson"):
@@ -393,7 +409,6 @@ def memtrace_validate(rep, work, name, tracedir, piece=60000):
                 if line:
                     e = json.loads(line)
                     groups[(fn, e["i"])].append(e)
-    reset = {"op": "reset", "b": "", "k": [], "vids": [], "exists": False, "ver": "None", "stack": []}
     insts = []
     for key in sorted(groups):
         es = sorted(groups[key], key=lambda e: e["n"])
@@ -403,7 +418,7 @@ def memtrace_validate(rep, work, name, tracedir, piece=60000):
     nev = sum(len(x) for x in insts)
     vr = TLCResult()
     rejected = []
-    cfg = "TraceMem.cfg"
+    cfg = module + ".cfg"
     write_cfg(work.path(cfg), {}, constraint="HighWater", postcondition="Accepted")
     pending = list(insts)
     while pending:
@@ -412,7 +427,7 @@ def memtrace_validate(rep, work, name, tracedir, piece=60000):
             x = pending.pop(0)
             chunk.append(x)
             size += len(x) + 1
-        tf = work.path("memtrace.%d.ndjson" % len(pending))
+        tf = work.path("%s.%d.ndjson" % (module, len(pending)))
         bounds = []
         with open(tf, "w") as f:
             n = 0
@@ -424,7 +439,7 @@ def memtrace_validate(rep, work, name, tracedir, piece=60000):
                     f.write(json.dumps(e, separators=(",", ":")) + "\n")
                 n += len(es)
         while True:
-            ok, at, res = validate_trace(work, "TraceMem", tf, cfgname=cfg)
+            ok, at, res = validate_trace(work, module, tf, cfgname=cfg)
             vr.distinct += res.distinct
             vr.generated += res.generated
             if ok:
@@ -435,7 +450,7 @@ def memtrace_validate(rep, work, name, tracedir, piece=60000):
                 if first <= at - 1 <= first + len(es):
                     bad = (first, es)
             if bad is None:
-                raise Infra("TraceMem rejected event %s which belongs to no instance" % at)
+                raise Infra("%s rejected event %s which belongs to no instance" % (module, at))
             rejected.append((bad[1], at - bad[0] - 1))
             bounds = [b for b in bounds if b[1] is not bad[1]]
             if not bounds:
@@ -453,41 +468,44 @@ def memtrace_validate(rep, work, name, tracedir, piece=60000):
                 bounds = nb
     rep.add_tlc(name, vr)
     rep.traces += len(insts) - len(rejected)
-    rep.stages.append({"stage": name, "s3mem_instances": len(insts), "state_events": nev, "rejected": len(rejected)})
+    rep.stages.append({"stage": name, what + "_instances": len(insts), "state_events": nev, "rejected": len(rejected)})
     if len(rep.samples) < 3 and insts:
         rep.samples.append(max(insts, key=len)[:4])
     for es, idx in rejected:
         idx = max(0, min(idx, len(es) - 1))
         e = es[idx]
-        desc = ("s3mem state trace: after %s on %s/%s (event %d of its backend instance) the logged state -- bucket exists=%s "
-                "versioning=%s stack=%s -- is not an outcome the specification admits" % (
-                    e["op"], e["b"], bytes(e["k"]).decode("utf-8", "replace"), idx + 1, e["exists"], e["ver"],
-                    json.dumps(e["stack"])[:400]))
+        desc = ("%s state trace: after %s on %s/%s (event %d of its instance) the logged state -- %s -- is not an outcome "
+                "the specification admits" % (what, e["op"], e["b"], bytes(e["k"]).decode("utf-8", "replace"), idx + 1, describe(e)))
         fid = classify(rep.prop, "mem", "State:" + e["op"], desc)
         if fid:
             rep.known[fid] = rep.known.get(fid, 0) + 1
             continue
         os.makedirs(os.path.join(OUT, "replays"), exist_ok=True)
         body = "".join(json.dumps(x) + "\n" for x in [reset] + es[:idx + 1])
-        rp = os.path.join(OUT, "replays", "%s-memtrace-%s.ndjson" % (rep.prop, hashlib.sha1(body.encode()).hexdigest()[:16]))
+        rp = os.path.join(OUT, "replays", "%s-%s-%s.ndjson" % (rep.prop, {"TraceMem": "memtrace", "TraceUp": "uptrace"}[module],
+                                                               hashlib.sha1(body.encode()).hexdigest()[:16]))
         with open(rp, "w") as f:
             f.write(body)
         rep.violations.append((rp, desc))
-    log("stage %-28s %d s3mem instances / %d state events validated by TraceMem: rejected %d" % (name, len(insts), nev, len(rejected)))
+    log("stage %-28s %d %s instances / %d state events validated by %s: rejected %d" % (name, len(insts), what, nev, module, len(rejected)))
 
 
-def repotests_stage(rep, work, name):
+def repotests_stage(rep, work, name, which="both"):
     """The repository's own test-suite, run with the s3mem hooks on: every test that touches the in-memory backend
     becomes a conformance test whose oracle is the specification."""
     mtdir = tempfile.mkdtemp(prefix="memtrace.", dir=work.dir)
-    env = dict(GOENV, VERIF_S3MEM_TRACE=mtdir)
+    updir = tempfile.mkdtemp(prefix="uptrace.", dir=work.dir)
+    env = dict(GOENV, VERIF_S3MEM_TRACE=mtdir, VERIF_UPLOADER_TRACE=updir)
     p = subprocess.run(["go", "test", "-tags", "verif", "-vet=off", "-count=1", "./..."], cwd=REPO, env=env,
                        capture_output=True, text=True, timeout=1500)
     if p.returncode != 0:
         # (a failing test of the repository is not this check's verdict; the traces recorded so far still are)
         log("stage %-28s the repository's tests did not all pass with the hooks on (rc=%d)" % (name, p.returncode))
         rep.assumptions.append("go test -tags verif ./... exited with %d while recording" % p.returncode)
-    memtrace_validate(rep, work, name, mtdir)
+    if which in ("both", "mem"):
+        memtrace_validate(rep, work, name + " s3mem", mtdir)
+    if which in ("both", "uploader"):
+        memtrace_validate(rep, work, name + " uploader", updir, module="TraceUp")
 
 
 # ---------------------------------------------------------------------------
@@ -906,6 +924,10 @@ def conc_stage(rep, work, name, systems, clients, runs, ops, keys, gated, race=F
         # decision of the same runs (the order of the linearization points is recorded, not searched)
         mtdir = tempfile.mkdtemp(prefix="memtrace.", dir=work.dir)
         env["VERIF_S3MEM_TRACE"] = mtdir
+    updir = None
+    if not kill_rounds:
+        updir = tempfile.mkdtemp(prefix="uptrace.", dir=work.dir)
+        env["VERIF_UPLOADER_TRACE"] = updir
     p = subprocess.run(cmd, capture_output=True, text=True, env=env, timeout=timeout)
     err = p.stderr
     os.makedirs(os.path.join(OUT, "replays"), exist_ok=True)
@@ -946,6 +968,8 @@ def conc_stage(rep, work, name, systems, clients, runs, ops, keys, gated, race=F
             rep.violations.append((rp, pr))
     if mtdir:
         memtrace_validate(rep, work, name + " (s3mem state trace)", mtdir)
+    if updir and any(fn.endswith(".ndjson") and os.path.getsize(os.path.join(updir, fn)) for fn in os.listdir(updir)):
+        memtrace_validate(rep, work, name + " (uploader state trace)", updir, module="TraceUp")
     cur = trace
     rejected, inconclusive = [], 0
     vstates = vtrans = 0
